@@ -215,7 +215,10 @@ UsesFDdn(c) == ~(Large(c) /\ Corner(c))
 SinSq3LodePercent(s) == (200 * Sq(D3(s))) \div Cube(M2(s))
 NearTransition(c) == /\ c.crit = "mohrcoulomb" /\ M2(c.s) > 0
                      /\ LET r == SinSq3LodePercent(c.s) t == c.par[3] IN
-                        IF 2 * t >= 57 * c.pd THEN r >= 99 ELSE r \in 92..94
+                        IF 2 * t >= 57 * c.pd THEN r >= 99
+                        ELSE IF t = 10 * c.pd THEN r \in 22..28              \* sin^2(30 deg) = 25
+                        ELSE IF t = 15 * c.pd THEN r \in 47..53              \* sin^2(45 deg) = 50
+                        ELSE r \in 92..94
 FDValid(c) == ~NearTransition(c)
 TolPorosity == 3
 
